@@ -14,17 +14,17 @@ VALS = [0.5, 1.0, 2.0, 3.0, -1.5, 10.0, 0.25, 4.0]
 KEY_ALPHABET = ["factor", "addend", "value", "base", "k", "scale", "a", "b", "note", "offset", "seed", "scaled", "ps_key"]
 
 SOURCES = ["VSrc", "VSrcDefault", "VCollSrc", "FloatDataSource", "VPayloadSrc"]
-FLOAT_OPS = ["VMul", "VMulDefault", "VAdd", "VAddDefault", "VAffine", "VAddNote", "FloatSquareOperation"]
+FLOAT_OPS = ["VMul", "VMulDefault", "VAdd", "VAddDefault", "VAffine", "VAddNote", "FloatSquareOperation", "VMemoMul", "VInPlaceMul"]
 COLL_OPS = ["VCollSum", "FloatCollectionSumOperation"]
-FLOAT_PROBES = ["VValueProbe", "VScaledProbe", "VOffsetProbe", "FloatBasicProbe"]
+FLOAT_PROBES = ["VValueProbe", "VScaledProbe", "VOffsetProbe", "FloatBasicProbe", "VMemoScaledProbe"]
 SINKS = ["VNullSink", "VFileSink", "FloatDataSink"]
 FAULTS = ["VBadWriter", "VBoom", "VBadType", "VCtxBadWriter"]
-SLICEABLE_OPS = ["VMul", "VMulDefault", "VAdd", "VAddDefault", "VAffine", "VAddNote", "FloatSquareOperation"]
+SLICEABLE_OPS = ["VMul", "VMulDefault", "VAdd", "VAddDefault", "VAffine", "VAddNote", "FloatSquareOperation", "VInPlaceMul"]
 SLICEABLE_PROBES = ["VValueProbe", "VScaledProbe", "VOffsetProbe"]
 ODD_EXC = ["unicode_decode", "unicode_encode", "exception_group", "os_error", "key_error_tuple", "stop_iteration",
            "empty_message", "two_arg_custom", "zero_division"]
-SWEEP_OPS = ["VMul", "VMulDefault", "VAdd", "VAffine", "VAddNote", "VPoly"]
-SWEEP_PROBES = ["VScaledProbe", "VOffsetProbe"]
+SWEEP_OPS = ["VMul", "VMulDefault", "VAdd", "VAffine", "VAddNote", "VPoly", "VMemoMul"]   # not VInPlaceMul: every step of a sweep is handed the same input object; whether an in-place operation may compound over the steps is not documented
+SWEEP_PROBES = ["VScaledProbe", "VOffsetProbe", "VMemoScaledProbe"]
 SWEEP_SRCS = ["VSrc", "VSrcDefault"]
 
 EXPR_TEMPLATES_1 = ["{x}", "2.0 * {x}", "{x} + 1.0", "{x} * {x}", "-{x}", "abs({x}) + 0.5", "max({x}, 1.0)", "{x} / 2.0",
@@ -84,6 +84,9 @@ class Gen:
         pnames = [n for n, _ in comp.params]
         nvars = nvars or self.rng.choice([1, 1, 2, 2, 3])
         pool = self.rng.choice([["c", "a", "b"], ["x10", "x9", "x1"], ["t", "s", "u"], ["b", "a", "c"]])
+        if self.chance(0.06):
+            # variables named like the functions of the expression grammar: a declared variable is a variable
+            pool = self.rng.choice([["max", "abs", "min"], ["round", "int", "t"], ["str", "float", "bool"]])
         names = pool[:nvars]
         variables = {}
         for v in names:
@@ -361,6 +364,10 @@ EXOTIC_VALUES = [
     "x" * 5000,                    # long string
     {"a": None, "b": [1, {"c": (1, 2)}]},
     range(3),
+    "caf\udce9.dat",              # lone surrogate (what os.fsdecode yields for an undecodable file name): not UTF-8 encodable
+    "\ud800 lone high surrogate",
+    "emoji \U0001f600 and NUL \x00 and CR\r\n",   # non-BMP, control characters
+    {"name": "r\udcffsum\udce9", "n": 1},
 ]
 
 
